@@ -467,6 +467,12 @@ func (x *Exec) externInvoke(f *frame, in ssa.Instruction, c *ssa.CallCommon, arg
 		// each implementation has its own contract)
 		x.assumed["extern "+name+": a predicate over the request data, no effect on modelled state"] = true
 		return x.resultVal(f.st, c.Signature(), "matchres"), true
+	case strings.HasPrefix(name, "(google.golang.org/grpc/mem.Buffer)."):
+		x.assumed["extern "+name+": reads the buffer / changes only its reference count (C53 covers the implementations); no effect on the caller's modelled state"] = true
+		return x.resultVal(f.st, c.Signature(), "membuf"), true
+	case name == "(google.golang.org/grpc/mem.BufferPool).Get" || name == "(google.golang.org/grpc/mem.BufferPool).Put":
+		x.assumed["extern "+name+": the buffer pool hands out / takes back a byte slice; no effect on modelled state other than the pool itself"] = true
+		return x.resultVal(f.st, c.Signature(), "pool"), true
 	case name == "(error).Error":
 		x.assumed["extern (error).Error: no effect on modelled state"] = true
 		return x.resultVal(f.st, c.Signature(), "errstr"), true
